@@ -38,56 +38,7 @@ def run(chk, program, tier):
     ini = [n for n in ast.walk(init) if isinstance(n, ast.Assign) and any(isinstance(t, ast.Attribute) and t.attr == 'sequence_counter' for t in n.targets)]
     chk.check(len(ini) == 1 and isinstance(ini[0].value, ast.Constant) and ini[0].value.value in range(8), 'FP-SEQ', '__init__::counter-initialised', file=ENC,
               line=init.lineno, func='__init__', expected='self.sequence_counter = <0..7> in __init__ (instance state)', found=ast.unparse(ini[0]) if ini else 'absent')
-    params = [a.arg for a in fn.args.args]
-    if len(params) != 6:
-        raise AnalysisError('_encode_fast_message signature changed: ' + str(params))
-    lengths = range(0, 224)
-    runs = 0
-    bad_seen = set()
-    for L in lengths:
-        for seq in range(8):
-            selfo = A.AObj(sequence_counter=A.AInt(seq))
-            payload = A.ABytes([A.sym_byte('payload', i) for i in range(L)])
-            it = A.Interp()
-            try:
-                frames = it.call_function(fn, [selfo, A.AInt(None), A.AInt(None), A.AInt(None), A.AInt(None), payload])
-            except A.Unknown as u:
-                chk.unknown('FP-LEN', f"_encode_fast_message@L={L},seq={seq}", str(u), ENC, fn.lineno)
-                return
-            runs += 1
-            inst = f"L={L},seq={seq}"
-            if not isinstance(frames, A.AList) or not all(isinstance(f, A.ABytes) for f in frames.items):
-                chk.unknown('FP-LEN', inst, 'result is not a list of bytes', ENC, fn.lineno)
-                return
-            fl = [len(f) for f in frames.items]
-            okl = bool(fl) and all(1 <= x <= 8 for x in fl)
-            _c(chk, bad_seen, okl, 'FP-LEN', inst, fn, expected='every frame has 1..8 bytes', found=fl if not okl else 'ok')
-            # header bytes
-            hdr_ok = True; why = ''
-            carried = []
-            for i, f in enumerate(frames.items):
-                if not f.items:
-                    hdr_ok = False; why = f"frame {i} empty"; break
-                b0 = f.items[0]
-                if b0 != ('c', ((seq << 5) | i) & 0xFF) or i >= 32:
-                    hdr_ok = False; why = f"frame {i} byte0 {b0} != {(seq << 5) | i}"; break
-                body = f.items[1:]
-                if i == 0:
-                    if len(body) < 1 or body[0] != ('c', L):
-                        hdr_ok = False; why = f"frame 0 byte1 {body[:1]} != length {L}"; break
-                    body = body[1:]
-                if i > 0 and not body:
-                    hdr_ok = False; why = f"frame {i} carries no data"; break
-                carried.append(body)
-            _c(chk, bad_seen, hdr_ok, 'FP-HDR', inst, fn, expected='byte0=(seq<<5)|frame, frame0 byte1=len(payload), later frames non-empty', found=why or 'ok')
-            flat = [b for body in carried for b in body]
-            okc = flat == [A.sym_byte('payload', i) for i in range(L)]
-            _c(chk, bad_seen, okc, 'FP-COUNT', inst, fn, expected=f"frames carry payload[0..{L - 1}] once each, in order", found='ok' if okc else f"{len(flat)} bytes carried instead of {L}")
-            cap_ok = all(len(b) <= (6 if i == 0 else 7) for i, b in enumerate(carried)) and all(len(b) == (6 if i == 0 else 7) for i, b in enumerate(carried[:-1]))
-            _c(chk, bad_seen, cap_ok, 'FP-COUNT', inst + '::capacities', fn, expected='6 data bytes in frame 0, 7 in every later frame, only the last frame short', found=[len(b) for b in carried] if not cap_ok else 'ok')
-            after = selfo.attrs.get('sequence_counter')
-            oks = isinstance(after, A.AInt) and after.v is not None and 0 <= after.v <= 7 and after.v != seq
-            _c(chk, bad_seen, oks, 'FP-SEQ', inst, fn, expected='counter in 0..7 and different from the previous message', found=repr(after))
+    runs = segmenter_sweep(chk, program, range(0, 224), range(8))
     chk.unit('abstract_runs', runs)
     chk.floor('abstract_runs', runs, 1792)
     decoder_side(chk, program, fn)
@@ -118,9 +69,12 @@ def roundtrip(chk, program, encfn, lengths, seqs):
     for L in lengths:
         for seq in seqs:
             selfo = A.AObj(sequence_counter=A.AInt(seq))
+            selfo.attrs.update(A.class_constants(None, program.cls('encoder', 'NMEA2000Encoder')))
             payload = A.ABytes([A.sym_byte('payload', i) for i in range(L)])
             try:
                 frames = A.Interp().call_function(encfn, [selfo, A.AInt(None), A.AInt(None), A.AInt(None), A.AInt(None), payload])
+            except A.RaiseSignal:
+                continue          # reported by FP-LEN
             except A.Unknown as u:
                 chk.unknown('FP-ROUNDTRIP', f"encode@L={L}", str(u), ENC, encfn.lineno); return n
             delivered = []
@@ -162,6 +116,66 @@ def roundtrip(chk, program, encfn, lengths, seqs):
                       expected='nothing before the last frame, then exactly one delivery of payload[0..L-1]; record deleted', found=found)
     return n
 
+def segmenter_sweep(chk, program, lengths, seqs):
+    fn = program.fn('encoder', 'NMEA2000Encoder._encode_fast_message')
+    consts_ = A.class_constants(None, program.cls('encoder', 'NMEA2000Encoder'))
+    params = [a.arg for a in fn.args.args]
+    if len(params) != 6:
+        raise AnalysisError('_encode_fast_message signature changed: ' + str(params))
+    runs = 0
+    bad_seen = set()
+    for L in lengths:
+        for seq in seqs:
+            selfo = A.AObj(sequence_counter=A.AInt(seq))
+            selfo.attrs.update(consts_)
+            payload = A.ABytes([A.sym_byte('payload', i) for i in range(L)])
+            it = A.Interp()
+            try:
+                frames = it.call_function(fn, [selfo, A.AInt(None), A.AInt(None), A.AInt(None), A.AInt(None), payload])
+            except A.RaiseSignal as r:
+                chk.violation('FP-LEN', f"_encode_fast_message@L={L},seq={seq}", file=ENC, line=r.node.lineno, func='_encode_fast_message',
+                              expected='frames for every payload length 0..223', found=f"raises: {ast.unparse(r.node)[:80]}",
+                              detail=f"a legal fast-packet payload of {L} bytes cannot be segmented")
+                continue
+            except A.Unknown as u:
+                chk.unknown('FP-LEN', f"_encode_fast_message@L={L},seq={seq}", str(u), ENC, fn.lineno)
+                return runs
+            runs += 1
+            inst = f"L={L},seq={seq}"
+            if not isinstance(frames, A.AList) or not all(isinstance(f, A.ABytes) for f in frames.items):
+                chk.unknown('FP-LEN', inst, 'result is not a list of bytes', ENC, fn.lineno)
+                return runs
+            fl = [len(f) for f in frames.items]
+            okl = bool(fl) and all(1 <= x <= 8 for x in fl)
+            _c(chk, bad_seen, okl, 'FP-LEN', inst, fn, expected='every frame has 1..8 bytes', found=fl if not okl else 'ok')
+            # header bytes
+            hdr_ok = True; why = ''
+            carried = []
+            for i, f in enumerate(frames.items):
+                if not f.items:
+                    hdr_ok = False; why = f"frame {i} empty"; break
+                b0 = f.items[0]
+                if b0 != ('c', ((seq << 5) | i) & 0xFF) or i >= 32:
+                    hdr_ok = False; why = f"frame {i} byte0 {b0} != {(seq << 5) | i}"; break
+                body = f.items[1:]
+                if i == 0:
+                    if len(body) < 1 or body[0] != ('c', L):
+                        hdr_ok = False; why = f"frame 0 byte1 {body[:1]} != length {L}"; break
+                    body = body[1:]
+                if i > 0 and not body:
+                    hdr_ok = False; why = f"frame {i} carries no data"; break
+                carried.append(body)
+            _c(chk, bad_seen, hdr_ok, 'FP-HDR', inst, fn, expected='byte0=(seq<<5)|frame, frame0 byte1=len(payload), later frames non-empty', found=why or 'ok')
+            flat = [b for body in carried for b in body]
+            okc = flat == [A.sym_byte('payload', i) for i in range(L)]
+            _c(chk, bad_seen, okc, 'FP-COUNT', inst, fn, expected=f"frames carry payload[0..{L - 1}] once each, in order", found='ok' if okc else f"{len(flat)} bytes carried instead of {L}")
+            cap_ok = all(len(b) <= (6 if i == 0 else 7) for i, b in enumerate(carried)) and all(len(b) == (6 if i == 0 else 7) for i, b in enumerate(carried[:-1]))
+            _c(chk, bad_seen, cap_ok, 'FP-COUNT', inst + '::capacities', fn, expected='6 data bytes in frame 0, 7 in every later frame, only the last frame short', found=[len(b) for b in carried] if not cap_ok else 'ok')
+            after = selfo.attrs.get('sequence_counter')
+            oks = isinstance(after, A.AInt) and after.v is not None and 0 <= after.v <= 7 and after.v != seq
+            _c(chk, bad_seen, oks, 'FP-SEQ', inst, fn, expected='counter in 0..7 and different from the previous message', found=repr(after))
+    return runs
+
 def _c(chk, seen, ok, rule, inst, fn, expected, found):
     chk.check(ok, rule, f"_encode_fast_message@{inst}", file=ENC, line=fn.lineno, func='_encode_fast_message', expected=expected, found=found)
 
@@ -191,12 +205,17 @@ def decoder_side(chk, program, encfn):
     second = ('sub', data, C(-2))
     # provenance of the encoder's byte 0: interpret once with a symbolic 3-bit counter
     selfo = A.AObj(sequence_counter=A.AInt(None, [('seq', 0), ('seq', 1), ('seq', 2)]))
-    it = A.Interp()
-    try:
-        frames = it.call_function(encfn, [selfo, A.AInt(None), A.AInt(None), A.AInt(None), A.AInt(None), A.ABytes([A.sym_byte('payload', i) for i in range(223)])])
-    except A.Unknown as u:
-        frames = None
-        chk.unknown('FP-HDR-DEC', 'encoder byte0 provenance', str(u), ENC, encfn.lineno)
+    selfo.attrs.update(A.class_constants(None, program.cls('encoder', 'NMEA2000Encoder')))
+    frames = None
+    for plen in (223, 216, 100):
+        try:
+            frames = A.Interp().call_function(encfn, [selfo, A.AInt(None), A.AInt(None), A.AInt(None), A.AInt(None), A.ABytes([A.sym_byte('payload', i) for i in range(plen)])])
+            break
+        except A.RaiseSignal:
+            continue        # a length the segmenter refuses is reported by FP-LEN
+        except A.Unknown as u:
+            chk.unknown('FP-HDR-DEC', 'encoder byte0 provenance', str(u), ENC, encfn.lineno)
+            break
     if frames is not None:
         for i, f in enumerate(frames.items):
             b0 = f.items[0]
